@@ -4,6 +4,7 @@ import (
 	"context"
 	"fmt"
 	"io"
+	"os"
 	"sort"
 	"sync"
 	"testing"
@@ -41,6 +42,7 @@ type lisCase struct {
 	Accept   int    `json:"accepted_by_application"`
 	CloseAt  string `json:"listener_close"` // after-timeout | immediately | at-op
 	K        int    `json:"k"`
+	Wave2    int    `json:"second_wave_conns"` // arrive after the first wave has been upgraded: the accept loop parks on the threshold holding one of them
 	GaterAcc bool   `json:"gater_rejects_accept"`
 	RcmgrN   int    `json:"rcmgr_refuses_open_connection_n"` // -1: never
 }
@@ -53,6 +55,8 @@ type lisResult struct {
 	OpenL                          map[string]int
 	TimedOut                       int
 	Hung                           bool
+	CallsL, CallsD                 map[string]int
+	DialOpenErr                    string
 	Bubble                         run.BubbleResult
 }
 
@@ -75,7 +79,7 @@ func (s *state) runListener(c *lisCase) (res lisResult) {
 		var wg sync.WaitGroup
 		closeOnce := sync.OnceFunc(func() { l.Close() })
 		for i := 0; i < c.Conns; i++ {
-			from := ma.StringCast(fmt.Sprintf("/ip4/10.0.%d.1/tcp/%d", i/200, 1000+i))
+			from := ma.StringCast(fmt.Sprintf("/ip4/10.1.%d.1/tcp/%d", i, 1000+i)) // distinct IPs: the default per-IP cap is 8 conns
 			a, b := ml.Connect(from, 0)
 			if a == nil {
 				continue
@@ -97,6 +101,9 @@ func (s *state) runListener(c *lisCase) (res lisResult) {
 				defer cancel()
 				scope, err := nd.rm.OpenConnection(network.DirOutbound, true, addrB)
 				if err != nil {
+					mu.Lock()
+					res.DialOpenErr = err.Error()
+					mu.Unlock()
 					a.Close()
 					return
 				}
@@ -114,6 +121,42 @@ func (s *state) runListener(c *lisCase) (res lisResult) {
 				conn.AcceptStream()
 				conn.Close()
 			}()
+		}
+		if c.Wave2 > 0 {
+			// first wave fully upgraded and un-accepted (>= AcceptQueueLength): the next raw conn is accepted
+			// by the gated listener (scope opened) and the loop parks in threshold.Wait()
+			synctest.Wait()
+			for i := 0; i < c.Wave2; i++ {
+				from := ma.StringCast(fmt.Sprintf("/ip4/10.2.%d.1/tcp/%d", i, 2000+i))
+				a, b := ml.Connect(from, 0)
+				if a == nil {
+					continue
+				}
+				mu.Lock()
+				raws = append(raws, a, b)
+				mu.Unlock()
+				wg.Add(1)
+				go func() {
+					defer wg.Done()
+					ctx, cancel := context.WithTimeout(context.Background(), 40*time.Second)
+					defer cancel()
+					scope, err := nd.rm.OpenConnection(network.DirOutbound, true, addrB)
+					if err != nil {
+						a.Close()
+						return
+					}
+					conn, err := nd.upg.Upgrade(ctx, nil, a, network.DirOutbound, kl.ID, scope)
+					if err != nil {
+						mu.Lock()
+						res.DialFailed++
+						mu.Unlock()
+						return
+					}
+					conn.AcceptStream()
+					conn.Close()
+				}()
+			}
+			synctest.Wait()
 		}
 		// the application accepts only c.Accept conns and closes them later
 		var accepted []network.MuxedConn
@@ -166,6 +209,7 @@ func (s *state) runListener(c *lisCase) (res lisResult) {
 		}
 		res.ResidueL, res.ResidueD = residue(nl.rm), residue(nd.rm)
 		res.OpenL = nl.inj.Open()
+		res.CallsL, res.CallsD = nl.inj.AllCalls(), nd.inj.AllCalls()
 		for _, rc := range raws {
 			rc.Close()
 		}
@@ -185,6 +229,9 @@ func (s *state) listenerCases() {
 			&lisCase{ID: "listener/" + proto + "/accept-some/over-threshold", Proto: proto, Conns: 24, Accept: 5, CloseAt: "after-timeout", RcmgrN: -1},
 			&lisCase{ID: "listener/" + proto + "/close-immediately/queued", Proto: proto, Conns: 10, CloseAt: "immediately", RcmgrN: -1},
 			&lisCase{ID: "listener/" + proto + "/close-immediately/over-threshold", Proto: proto, Conns: 24, Accept: 2, CloseAt: "immediately", RcmgrN: -1},
+			&lisCase{ID: "listener/" + proto + "/parked-on-threshold/close-immediately", Proto: proto, Conns: 18, Wave2: 3, CloseAt: "immediately", RcmgrN: -1},
+			&lisCase{ID: "listener/" + proto + "/parked-on-threshold/accept-some-then-close", Proto: proto, Conns: 17, Wave2: 2, Accept: 1, CloseAt: "immediately", RcmgrN: -1},
+			&lisCase{ID: "listener/" + proto + "/parked-on-threshold/after-timeout", Proto: proto, Conns: 20, Wave2: 4, CloseAt: "after-timeout", RcmgrN: -1},
 			&lisCase{ID: "listener/" + proto + "/gater-rejects-accept", Proto: proto, Conns: 3, CloseAt: "after-timeout", GaterAcc: true, RcmgrN: -1},
 			&lisCase{ID: "listener/" + proto + "/rcmgr-refuses-accept", Proto: proto, Conns: 3, CloseAt: "after-timeout", RcmgrN: 1},
 		)
@@ -200,6 +247,9 @@ func (s *state) listenerCases() {
 		}
 		res := s.runListener(c)
 		s.r.Eval(1)
+		if os.Getenv("VERIF_DEBUG") != "" {
+			s.t.Logf("DEBUG %s: %+v", c.ID, res)
+		}
 		detail := map[string]any{"case": c, "result": res}
 		if s.r.BubbleFailed(res.Bubble, "listener:goroutine-left-running", c.ID, "goroutines of the listener or its connections never finished", map[string]any{"case": c}) {
 			return
@@ -213,7 +263,7 @@ func (s *state) listenerCases() {
 		if res.RawOpen > 0 {
 			s.r.Violation("listener:raw-conn-not-closed", c.ID, fmt.Sprintf("%d underlying connections left open after the listener was closed", res.RawOpen), detail)
 		}
-		if c.CloseAt == "after-timeout" && !c.GaterAcc && c.RcmgrN < 0 {
+		if c.CloseAt == "after-timeout" && !c.GaterAcc && c.RcmgrN < 0 && c.Wave2 == 0 {
 			want := c.Conns - c.Accept
 			if res.TimedOut < want {
 				s.r.Violation("listener:accept-timeout-did-not-close", c.ID, fmt.Sprintf("%d of %d un-accepted connections were still open after the accept timeout", want-res.TimedOut, want), detail)
@@ -223,6 +273,12 @@ func (s *state) listenerCases() {
 		}
 		if c.CloseAt == "immediately" {
 			s.r.Count("listener_close_drained", 1)
+		}
+		if c.Wave2 > 0 && res.Upgraded >= 16 {
+			s.r.Count("listener_parked_on_threshold_cases", 1)
+		}
+		if res.Upgraded > 16 {
+			s.r.Count("listener_cases_over_threshold", 1)
 		}
 		if c.GaterAcc {
 			s.r.Count("gater_rejections_fired", 1)
@@ -652,6 +708,8 @@ func (s *state) swarmCases() {
 			}
 		})
 	}
+	s.r.Require("listener_parked_on_threshold_cases", 2)
+	s.r.Require("listener_cases_over_threshold", 2)
 	s.r.Require("swarm_dry_runs_echoed", 4)
 	s.r.Require("swarm_faults_fired", 400)
 	s.r.Require("swarm_attempt_failed", 200)
